@@ -842,7 +842,14 @@ class Engine(
             case ColumnInContainer(item=item, container=container):
                 sql_item = self.expect_column_scalar(self.convert_column_expression(item, columns_available))
                 match container:
-                    case ColumnRangeLiteral(value=range(start=start, stop=stop_exclusive, step=step)):
+                    case ColumnRangeLiteral(value=value):
+                        if not value:
+                            # An empty range has no members, whatever its bounds.
+                            return sqlalchemy.sql.literal(False)
+                        if value.step < 0:
+                            # Same members in ascending order.
+                            value = value[::-1]
+                        start, stop_exclusive, step = value.start, value.stop, value.step
                         # The convert_column_literal calls below should just
                         # call sqlalchemy.sql.literal(int), which would also
                         # happen automatically internal to any of the other
@@ -860,6 +867,17 @@ class Engine(
                                 self.convert_column_literal(stop_inclusive),
                             )
                             if step != 1:
+                                if start < 0:
+                                    # SQL's % truncates toward zero, so only compare
+                                    # remainders of non-negative numbers.
+                                    return sqlalchemy.sql.and_(
+                                        *[
+                                            target,
+                                            (sql_item - self.convert_column_literal(start))
+                                            % self.convert_column_literal(step)
+                                            == self.convert_column_literal(0),
+                                        ]
+                                    )
                                 return sqlalchemy.sql.and_(
                                     *[
                                         target,
